@@ -14,6 +14,7 @@ def run(ctx):
                                     weights={'state': 5, 'ctx': 3, 'location': 1, 'descr': 4, 'reject': 1, 'abort': 1})
     nfail = mdibcheck.judge(ctx, 'reports', pairs, [mdibgen.oracle_reports], {'C04'})
     mism = mdibcheck.model_correspondence(ctx, 'reports', pairs, FILES)
+    mism = mdibcheck.report_correspondence(ctx, 'reports', pairs, FILES) or mism
     nrep = sum(len(s['reports']) for _, r in pairs for s in r['trace'])
     mds = sorted({str(p.get('mds')) for _, r in pairs for s in r['trace'] for rep in s['reports'] for p in rep.get('parts', [])})
     ctx.count('reports', len(pairs), [repr(r['trace']) for _, r in pairs], histogram=mdibcheck.op_histogram(pairs),
